@@ -36,7 +36,7 @@ func init() {
 		Name: "C20.batching", Prop: "C20", Race: true,
 		Cases: func(tier string) int { return tierN(tier, 60, 2000) },
 		Run:   runBatching,
-		Rule: "the real async client (linger 0/1/5 ms, max 1/2/7/1000 requests per batch, values up to 60 KB so that the 128 KiB batch size splits) against a fake service with 1..6 shards whose answers are a function of the request alone; 2..8 caller goroutines issue 40..200 puts (unique value = operation id), deletes and gets, some answered UNEXPECTED_VERSION_ID / KEY_NOT_FOUND by design; faults per case: none, a retriable refusal (NodeIsNotLeader) of the k-th write or read request of one shard (for reads also after the first chunk of the answer is out), a non-retriable failure of it, per-shard delays; " +
+		Rule: "the real async client (linger 0/1/5 ms, max 1/2/7/1000 requests per batch, values up to 60 KB so that the 128 KiB batch size splits) against a fake service with 1..6 shards whose answers are a function of the request alone; 2..8 caller goroutines issue 40..200 puts (unique value = operation id), deletes and gets, some answered UNEXPECTED_VERSION_ID / KEY_NOT_FOUND by design; faults per case: none, a retriable refusal (NodeIsNotLeader) of the k-th write or read request of one shard (for reads also after the first chunk of the answer is out), a non-retriable failure of it, per-shard delays, or one write request answered only after the client's request timeout (300 ms) has passed, in order, followed by the answers to the later requests of that stream (the timed-out operations have an unknown outcome; every later operation must still get its own answer); " +
 			"oracle: every returned channel yields exactly one result and is closed (none within the client's own request timeout + margin = violation), the result is the fake's answer to that very operation (version id, key, value, status), an operation that failed is one the fake never applied, one that succeeded was applied exactly once, and no operation fails unless a fault was injected on a write stream or a non-retriable one on a read (a refused read must be retried transparently); " +
 			"non-trivial = >= 1 request carried >= 2 operations and (if a fault was planned) it fired; distinct = (config, fault, batch-size profile)",
 		MinNontrivial:    func(tier string) int { return tierN(tier, 15, 600) },
@@ -47,7 +47,7 @@ func init() {
 		Name: "C20.fanout", Prop: "C20", Race: true,
 		Cases: func(tier string) int { return tierN(tier, 60, 2000) },
 		Run:   runFanout,
-		Rule: "list, range-scan and floor/ceiling/lower/higher gets without partition key over 2..7 shards holding 30..300 hierarchical keys, answered in chunks of 1..50 with per-shard delays, several calls in flight at once; optionally one shard fails its stream half way; " +
+		Rule: "list, range-scan and floor/ceiling/lower/higher gets without partition key over 2..7 shards holding 30..300 hierarchical keys, answered in chunks of 1..50 with per-shard delays (a third of the shards begin every answer stream with a message that carries nothing), several calls in flight at once; optionally one shard fails its stream half way; " +
 			"oracle: list = the set of keys in range over all shards (no loss, no duplicate), range-scan = exactly those records in global slash order (an independent implementation of the order), comparison get = the floor/ceiling/lower/higher of the union, every channel is closed in the end; with a failing shard the call must deliver an error and still terminate; " +
 			"non-trivial = a range spanning >= 3 shards with >= 20 keys and >= 1 comparison get answered by a shard other than the probe key's; distinct = (shards, universe hash, calls)",
 		MinNontrivial:    func(tier string) int { return tierN(tier, 25, 800) },
@@ -94,7 +94,7 @@ func runBatching(tier string, seed uint64, idx int) core.Result {
 	srv.SetRanges(ranges)
 	linger := []time.Duration{0, time.Millisecond, 5 * time.Millisecond}[rng.IntN(3)]
 	maxReq := []int{1, 2, 7, 1000}[rng.IntN(4)]
-	faultKind := []string{"none", "none", "retriable-write", "retriable-read", "retriable-read-midstream", "fatal-write", "fatal-read", "delays"}[rng.IntN(8)]
+	faultKind := []string{"none", "none", "retriable-write", "retriable-read", "retriable-read-midstream", "fatal-write", "fatal-read", "delays", "slow-write"}[rng.IntN(9)]
 	faultShard := ranges[rng.IntN(len(ranges))].ID
 	faultAt := 1 + rng.IntN(4)
 	var fired atomic.Int64
@@ -132,6 +132,16 @@ func runBatching(tier string, seed uint64, idx int) core.Result {
 			}
 			return nil
 		}
+	case "slow-write":
+		// one write request is answered only after the client's request timeout has passed; the answer then comes,
+		// in order, followed by the answers to the requests sent after it on the same stream
+		srv.WriteStall = func(shard int64, n int) time.Duration {
+			if shard == faultShard && n == faultAt {
+				fired.Add(1)
+				return 700 * time.Millisecond
+			}
+			return 0
+		}
 	case "delays":
 		ds := map[int64]time.Duration{}
 		for _, rg := range ranges {
@@ -145,7 +155,10 @@ func runBatching(tier string, seed uint64, idx int) core.Result {
 	}
 	srv.ChunkSize = func() int { return chunk }
 
-	const reqTimeout = 3 * time.Second
+	reqTimeout := 3 * time.Second
+	if faultKind == "slow-write" {
+		reqTimeout = 300 * time.Millisecond
+	}
 	cl, err := oxia.NewAsyncClient(srv.Addr, oxia.WithBatchLinger(linger), oxia.WithMaxRequestsPerBatch(maxReq), oxia.WithRequestTimeout(reqTimeout))
 	if err != nil {
 		r.Inconclusive("client: " + err.Error())
@@ -317,7 +330,7 @@ func runBatching(tier string, seed uint64, idx int) core.Result {
 	// a write stream that the service ends with an error status surfaces in the client as a closed stream (EOF) whatever
 	// the status was: the operations on it fail instead of being retried. That is a failure report for those very
 	// operations, which the property allows; what it must not do is apply them, answer others wrongly, or hang.
-	fatal := (strings.HasPrefix(faultKind, "fatal") || faultKind == "retriable-write") && fired.Load() > 0
+	fatal := (strings.HasPrefix(faultKind, "fatal") || faultKind == "retriable-write" || faultKind == "slow-write") && fired.Load() > 0
 	for _, o := range ops {
 		where := fmt.Sprintf("%s %s (linger %v, max %d per batch, %d shards, fault %s)", o.kind, o.key, linger, maxReq, nShards, faultKind)
 		switch {
@@ -336,6 +349,9 @@ func runBatching(tier string, seed uint64, idx int) core.Result {
 			r.Count("ops_failed_by_fault", 1)
 			if !fatal {
 				r.Violate("C20/operation-failed-without-a-fault/"+o.kind, fmt.Sprintf("%v: %s", o.err, where), nil)
+			} else if faultKind == "slow-write" {
+				// the outcome of an operation that timed out on the client is unknown: it may have been applied
+				r.Count("ops_timed_out_on_the_client", 1)
 			} else if o.kind == "put" && puts[o.id] > 0 {
 				r.Violate("C20/failed-operation-was-applied", where, nil)
 			}
@@ -412,6 +428,15 @@ func runFanout(tier string, seed uint64, idx int) core.Result {
 		ds[rg.ID] = time.Duration(rng.IntN(3)) * time.Millisecond
 	}
 	srv.Delay = func(shard int64) time.Duration { return ds[shard] }
+	// some shards begin every list / range-scan answer with a message that carries nothing
+	emptyFirst := map[int64]bool{}
+	for _, rg := range ranges {
+		if rng.IntN(3) == 0 {
+			emptyFirst[rg.ID] = true
+			r.Count("shards_answering_with_an_empty_first_message", 1)
+		}
+	}
+	srv.EmptyFirstChunk = func(shard int64) bool { return emptyFirst[shard] }
 	failing := rng.IntN(4) == 0
 	failShard := ranges[rng.IntN(len(ranges))].ID
 	var failOn atomic.Bool
